@@ -255,18 +255,21 @@ def run_bin(profile, name, args, timeout=1800, env=None):
 
 def parse_cases_result(out):
     flat = re.sub(r"\s+", " ", out).replace("%Z", "").replace("%N", "")
-    m = re.search(r"= \((\d+), \[([^\]]*)\], \[([^\]]*)\]\)", flat)
+    flat = flat.replace("( ", "(").replace(" )", ")").replace("[ ", "[").replace(" ]", "]")
+    m = re.search(r"= \((\d+), ?\[([^\]]*)\], ?\[([^\]]*)\]\)", flat)
     if not m:
         return None
     total = int(m.group(1))
     mm = [int(x) for x in re.findall(r"-?\d+", m.group(2))]
-    bad = [(int(a), int(b)) for a, b in re.findall(r"\((-?\d+), (-?\d+)\)", m.group(3))]
+    bad = [(int(a), int(b)) for a, b in re.findall(r"\(\s*(-?\d+)\s*,\s*(-?\d+)\s*\)", m.group(3))]
+    if m.group(3).count("(") != len(bad):
+        return None
     return total, mm, bad
 
 
 def eval_shard(args):
     workdir, name, module, terms, timeout, prelude = args
-    text = "From SV Require Import %s.\n%s\nDefinition cases : list case := [\n%s\n].\nEval vm_compute in (run_cases cases).\n" % (
+    text = "From SV Require Import %s.\nSet Printing Width 1000000.\n%s\nDefinition cases : list case := [\n%s\n].\nEval vm_compute in (run_cases cases).\n" % (
         module, prelude, ";\n".join(terms))
     rc, out = coq_eval(name, text, timeout=timeout, workdir=workdir)
     if rc != 0:
